@@ -79,11 +79,12 @@ type Firer interface {
 }
 
 type Event struct {
-	at   int64
-	seq  uint64
-	f    Firer
-	next *Event
-	Dead bool
+	fired bool
+	at    int64
+	seq   uint64
+	f     Firer
+	next  *Event
+	Dead  bool
 	// Chain: events with the same non-zero chain fire in the order they were scheduled (a TCP stream is FIFO)
 	Chain uintptr
 }
@@ -200,13 +201,15 @@ type World struct {
 
 	seq      uint64
 	serial   uint64
-	evPrio   int64 // PCT: priority of "deliver a due event"
-	lowPrio  int64 // PCT: next demotion priority (decreasing)
-	Procs    int   // simulated GOMAXPROCS / NumCPU (0 = not drawn yet; sim/runtime)
-	urgent   *Task // runs ahead of everybody until it blocks (AfterPoints)
-	ptTask   *Task // task parked in AfterPoints
-	ptLeft   int   // statements of other tasks still to go before ptTask is released
-	nStalled int   // tasks with stalled set
+	evPrio   int64  // PCT: priority of "deliver a due event"
+	lowPrio  int64  // PCT: next demotion priority (decreasing)
+	Procs    int    // simulated GOMAXPROCS / NumCPU (0 = not drawn yet; sim/runtime)
+	urgent   *Task  // runs ahead of everybody until it blocks (AfterPoints)
+	ptTask   *Task  // task parked in AfterPoints
+	ptLeft   int    // statements of other tasks still to go before ptTask is released
+	ptStall  bool   // AfterPointsStall: the task interrupted at that moment is descheduled (see StallPoint)
+	nStalled int    // tasks with stalled set
+	lastNop  *Event // the latest deadline wake-up event (Block)
 	epoch    uint64
 	hash     uint64
 	Quiet    bool // quiet phase: no time skipping, no faults (harness sets it)
@@ -826,6 +829,7 @@ func (w *World) pick(cur *Task, preempt bool) *Task {
 		}
 		e := evs[k-nt]
 		w.removeEvent(e)
+		e.fired = true
 		w.Stats.Events++
 		w.seq++
 		saved := w.cur
@@ -985,8 +989,10 @@ func Block(obj Waitable, arg int, reason string, deadline int64) bool {
 	t.TimedOut = false
 	t.state = stBlocked
 	t.since = 0
-	if deadline >= 0 {
-		w.At(deadline, nop{})
+	if deadline >= 0 && !(w.lastNop != nil && !w.lastNop.fired && !w.lastNop.Dead && w.lastNop.at == deadline) {
+		// (one wake-up event per deadline value: a loop of thousands of short reads under one read deadline
+		// would otherwise pile up thousands of events at the same instant)
+		w.lastNop = w.At(deadline, nop{})
 	}
 	if w.cfg.Verbose {
 		Tracef("block: %s", reason)
@@ -1082,6 +1088,11 @@ func StallPoint() {
 	w.afterResume(t)
 }
 
+// SetMaxSteps adjusts the run's step budget once the harness knows how much work the run's workload is.
+//
+//go:norace
+func (w *World) SetMaxSteps(n int64) { w.cfg.MaxSteps = n }
+
 // Gosched is runtime.Gosched of rewritten SUT code: everybody else who can run goes first.
 //
 //go:norace
@@ -1163,6 +1174,11 @@ func Point(id int) {
 			}
 			w.urgent = w.ptTask
 			t.state = stRunnable
+			if w.ptStall {
+				// the interrupted task stays off the processor until everybody else has run dry
+				t.stalled = true
+				w.nStalled++
+			}
 			w.resched(t, true)
 			w.afterResume(t)
 			return
@@ -1310,6 +1326,18 @@ func ReapBlockedSUT() int {
 		}
 	}
 	return n
+}
+
+// AfterPointsStall is AfterPoints, and the task that was running at that moment stays descheduled until every other
+// task has run as far as it can: "X is suspended at its k-th statement while everything the caller then starts
+// runs to completion".
+//
+//go:norace
+func AfterPointsStall(n int, deadline int64) bool {
+	W.ptStall = true
+	ok := AfterPoints(n, deadline)
+	W.ptStall = false
+	return ok
 }
 
 // SetSched fixes a task's priority and the number of Points after which it is demoted (0 = never); call it right
